@@ -9,7 +9,9 @@ use rink_core::Context;
 use std::io::{BufRead, Write};
 
 pub fn enc_name(s: &str) -> String {
-    if !s.is_empty() && s.chars().all(|c| c.is_ascii_alphanumeric() || c == '_') {
+    // plain names are written as they are; anything else, and every name starting with `x`
+    // (the marker of the hex form), is written as `x<hex>` so that decoding is unambiguous
+    if !s.is_empty() && !s.starts_with('x') && s.chars().all(|c| c.is_ascii_alphanumeric() || c == '_') {
         s.to_string()
     } else {
         format!("x{}", hex(s))
@@ -65,7 +67,7 @@ pub fn new_context() -> Context {
     ctx
 }
 
-/// `helpers::eval` without `update_time` (the clock is pinned so runs are reproducible).
+/// `helpers::eval` without `update_time`, for the checks that pin the clock (C14).
 pub fn eval_pinned(ctx: &mut Context, line: &str) -> (Query, Result<QueryReply, QueryError>) {
     let mut iter = TokenIterator::new(line.trim()).peekable();
     let q = parse_query(&mut iter);
@@ -77,6 +79,17 @@ pub fn eval_pinned(ctx: &mut Context, line: &str) -> (Query, Result<QueryReply, 
             }
         }
     }
+    (q, res)
+}
+
+/// The real entry point `rink_core::eval` (helpers.rs: update_time, parse, eval_query, store `ans`);
+/// the query is parsed a second time only to tell the reply kinds apart in `canon`. The clock
+/// therefore moves between queries; nothing that the evaluation worker compares depends on it
+/// (dates are answered "other date").
+pub fn eval_real(ctx: &mut Context, line: &str) -> (Query, Result<QueryReply, QueryError>) {
+    let mut iter = TokenIterator::new(line.trim()).peekable();
+    let q = parse_query(&mut iter);
+    let res = rink_core::eval(ctx, line);
     (q, res)
 }
 
@@ -193,7 +206,7 @@ pub fn worker() -> i32 {
             ["eval", input, ..] => {
                 let text = unhex(input);
                 let res = std::panic::catch_unwind(std::panic::AssertUnwindSafe(|| {
-                    let (q, r) = eval_pinned(&mut ctx, &text);
+                    let (q, r) = eval_real(&mut ctx, &text);
                     render_all(&r);
                     canon(&q, &r)
                 }));
@@ -203,7 +216,7 @@ pub fn worker() -> i32 {
                 // like `eval`, but a panic is answered with its source location (C04)
                 let text = unhex(input);
                 let res = std::panic::catch_unwind(std::panic::AssertUnwindSafe(|| {
-                    let (q, r) = eval_pinned(&mut ctx, &text);
+                    let (q, r) = eval_real(&mut ctx, &text);
                     render_all(&r);
                     canon(&q, &r)
                 }));
@@ -212,7 +225,7 @@ pub fn worker() -> i32 {
             ["evalp", input, ..] => {
                 let text = unhex(input);
                 let res = std::panic::catch_unwind(std::panic::AssertUnwindSafe(|| {
-                    let (q, r) = eval_pinned(&mut ctx, &text);
+                    let (q, r) = eval_real(&mut ctx, &text);
                     render_all(&r);
                     canon_parts(&q, &r)
                 }));
@@ -227,7 +240,7 @@ pub fn worker() -> i32 {
                 use std::hash::{Hash, Hasher};
                 let mut h = std::collections::hash_map::DefaultHasher::new();
                 format!("{:?}", ctx.registry).hash(&mut h);
-                format!("{:?}|{:?}", ctx.now, ctx.use_humanize).hash(&mut h);
+                format!("{:?}", ctx.use_humanize).hash(&mut h);
                 format!("digest {:016x}", h.finish())
             }
             ["ans", flag] => { ctx.save_previous_result = *flag == "on"; "ok".into() }
